@@ -323,6 +323,9 @@ func c15Scenarios() []c15Scenario {
 			if i < c15Spelled && j >= c15Spelled && bs[j].Name != "sso-A" && bs[j].Name != "logout-B" {
 				continue
 			}
+			if i < c15Spelled && j < c15Spelled && j > i+1 && ev.Tier() != "thorough" {
+				continue // quick: each spelled / large body with itself and with its neighbour; thorough: all pairs among them
+			}
 			out = append(out, c15Scenario{Name: bs[i].Name + " || " + bs[j].Name, Bodies: []int{i, j}})
 		}
 	}
@@ -699,6 +702,42 @@ func runC15(ctx Ctx) int {
 			run.Outcome("history:same")
 		}
 	})
+	// two provider instances alive in one process: A (configuration cA) is constructed, then B (configuration cB, possibly the same);
+	// B serves b1, then A serves b2. The reply to b2 is the reply it gets from a provider that is alone in its process: nothing that
+	// belongs to an instance (configuration, templates, endpoints, keys, storage) may be shared or taken from the instance built last.
+	type tcase struct{ ca, cb, b1, b2 int }
+	var tcases []tcase
+	for ca := range cfgNames {
+		for cb := range cfgNames {
+			for b1 := range bs {
+				for b2 := range bs {
+					if run.Tier != "thorough" && b1 != b2 && (b1+b2)%3 != 0 {
+						continue // quick: every body after itself and a third of the ordered pairs
+					}
+					tcases = append(tcases, tcase{ca, cb, b1, b2})
+				}
+			}
+		}
+	}
+	_, c2b := parallel(len(tcases), deadline, func(i int) {
+		tc := tcases[i]
+		wa := c15WorldCfg(cfgNames[tc.ca])
+		wb := c15WorldCfg(cfgNames[tc.cb])
+		wa.Handler = wa.Provider.HttpHandler() // the handler may be obtained more than once
+		c15Observe(wb.Do(bs[tc.b1].Req(wb)))
+		last := c15Observe(wa.Do(bs[tc.b2].Req(wa)))
+		solo := c15SoloObsCfg(bs[tc.b2], cfgNames[tc.ca])
+		run.Evaluations.Add(1)
+		run.Transitions.Add(2)
+		if last.Norm != solo.Norm {
+			run.Outcome("two-providers:differs")
+			run.Violate("reply-depends-on-another-provider-instance-in-the-process", "sequential", []string{"two-providers", "judged-instance-config=" + cfgNames[tc.ca], "other-instance-config=" + cfgNames[tc.cb], "other-served=" + bs[tc.b1].Name, "step=" + bs[tc.b2].Name},
+				map[string]any{"detail": diffHint(solo.Norm, last.Norm)}, nil)
+		} else {
+			run.Outcome("two-providers:same")
+		}
+	})
+	c2 = c2 && c2b
 	// history companion with a storage failure at the last step: b1 ; (one storage operation fails once) ; b2. The reply to b2
 	// equals the reply b2 gets on a FRESH provider with the same failure, and shares no message ID with the reply to b1
 	// (state kept from an earlier request must not be served to a later one, whatever goes wrong in between)
